@@ -14,5 +14,6 @@ ContentsQuick    == DataQuick \cup PtrQuick \cup MergeQuick
 ContentsThorough == ContentsQuick \cup { D("bin4m", 4194304), D("bin1m1", 1048577), P("ptr_ext", 300, TRUE), P("ptr_legacy", 128, TRUE) }
 DeliveriesAll == {"whole", "split1", "split_mid", "split1023", "split1024", "split1025", "bytes1", "pkt1", "pkt7", "pkt1024", "pktmax"}
 FrontEndsAll  == {"oneshot", "process", "gitadd", "mergedriver"}
+ExtsAll       == {"none", "rot13", "gzip", "base64", "rot13+gzip"}
 WtAll         == {"none", "same", "shorter", "longer", "pointer"}
 =============================================================================
